@@ -17,6 +17,7 @@ from io import StringIO
 from pathlib import Path
 from typing import Iterable, List, Optional, Callable, TextIO, Dict, Set, Any
 import re
+from urllib.parse import unquote
 import gffutils
 from Bio import SeqIO
 from Bio.SeqRecord import SeqRecord
@@ -59,7 +60,9 @@ def filter_and_sort_qualifiers(qualifiers: Dict[str, List[str]]) -> Optional[Dic
     """Filter out the qualifiers for any terms we have extracted as BioCantor identifiers as well as any
     GFF3 special terms"""
     qualifiers = {
-        key: sorted(vals) for key, vals in qualifiers.items() if not re.fullmatch(BIOCANTOR_QUALIFIERS_REGEX, key)
+        unquote(key): sorted(vals)
+        for key, vals in qualifiers.items()
+        if not re.fullmatch(BIOCANTOR_QUALIFIERS_REGEX, key)
     }
     return qualifiers if qualifiers else None
 
